@@ -19,16 +19,21 @@ import (
 
 // ---- client engines: Dial / Enroll, connected UDP sockets, Client.Stop as the shutdown source --------
 
-func runClientLifeCase(c cfg, seed uint64, nconn int, stopTwice bool, keys map[string]struct{}) (evals int64) {
+func runClientLifeCase(c cfg, seed uint64, nconn int, stopTwice, cbShutdown bool, keys map[string]struct{}) (evals int64) {
 	r := vlib.NewRand(seed)
 	var mon *monitor
 	var trafficUDP, trafficTCP atomic.Int64
+	var shutdownArmed, shutdownFired atomic.Bool
 	mon = newMonitor("clientlife", hooks{
 		onOpen: func(cs *connState, gc gnet.Conn) ([]byte, gnet.Action) {
 			return nil, gnet.None
 		},
 		onTraffic: func(cs *connState, gc gnet.Conn) gnet.Action {
 			b, _ := gc.Next(-1)
+			if shutdownArmed.Load() && !shutdownFired.Swap(true) {
+				// a client callback asks for shutdown; the application calls Client.Stop afterwards as usual
+				return gnet.Shutdown
+			}
 			if gc.LocalAddr() != nil && gc.LocalAddr().Network() == "udp" {
 				trafficUDP.Add(1)
 				_, _ = gc.Write(b) // echo the datagram to the connected peer
@@ -192,6 +197,21 @@ func runClientLifeCase(c cfg, seed uint64, nconn int, stopTwice bool, keys map[s
 	for _, cs := range mon.snapshot() {
 		cs.armedLocal.Store(true)
 		cs.armedRemote.Store(true)
+	}
+	if cbShutdown {
+		shutdownArmed.Store(true)
+		for _, gc := range conns {
+			if cs, _ := ctxState(gc); cs != nil && atomic.LoadInt32(&cs.state) == 1 {
+				if gc.Wake(nil) == nil {
+					break
+				}
+			}
+		}
+		waitCondQuick(2*time.Second, func() bool { return shutdownFired.Load() })
+		time.Sleep(time.Duration(r.Intn(3000)) * time.Microsecond)
+		if shutdownFired.Load() {
+			keys["client|shutdown-action-from-callback-then-Client.Stop"] = struct{}{}
+		}
 	}
 	stopDone := make(chan error, 1)
 	go func() { stopDone <- cli.Stop() }()
